@@ -101,6 +101,7 @@ pub fn one_case(m: &Model, origin: &str) -> Case {
         model_term, snap(&p), coq::b(items_same), coq::b(twice_same), coq::b(check_same), coq::b(indicators_same)
     );
     Case {
+        post: String::new(),
         term,
         json: json!({"origin": origin, "model": before, "indicators_before": format!("{:?}", ia), "indicators_after": format!("{:?}", ib)}),
         nontrivial: removed > 0,
